@@ -83,6 +83,7 @@ type drv struct {
 }
 
 type acc struct {
+	notes       []string
 	Evaluations int
 	counts      map[string]int
 	fails       []common.Failure
@@ -529,6 +530,15 @@ func (d *drv) givenTree(doc []byte, hi int, base *obs) {
 			failInput{Kind: "tree", Class: "c03-given-tree-ignored", Doc: string(doc), Hasher: hi})
 		return
 	}
+	// a provided empty tree of another depth: same root (Properties/C03.v C03_tree_depth)
+	if deep, err := merkletree.NewMerkleTree(context.Background(), memory.NewMemoryStorage(), 64); err == nil {
+		od, _, _ := d.observe(doc, hi, merklize.WithMerkleTree(merklize.MerkleTreeSQLAdapter(deep)))
+		if diff := base.same(od, true); diff != "" {
+			d.fail("a caller-provided empty tree with 64 levels changes the result: "+diff,
+				failInput{Kind: "tree", Class: "c03-given-tree-depth", Doc: string(doc), Hasher: hi})
+			return
+		}
+	}
 	// a provided tree that already holds a leaf: root of the union, in any insertion order
 	ek, ev := big.NewInt(int64(1+d.rng.Intn(1<<30))), big.NewInt(int64(d.rng.Intn(1<<30)))
 	pre, _ := newTree()
@@ -921,6 +931,35 @@ func (d *drv) datasetCase(ds *ld.RDFDataset, hi int, in failInput, nOrders int) 
 	}
 }
 
+// witness replays RDF.Order.bad_ds (the refutation witness of "literally the same outcome
+// for every map order", Properties/C03.v C03_graph_order_same_error_refuted) on the real
+// code: graph "" with one quad, @default with a blank-node predicate.  Expected: an error in
+// every run (class is order independent), with a message that depends on the map order.
+func (d *drv) witness() {
+	ds := ld.NewRDFDataset()
+	ds.Graphs[""] = []*ld.Quad{{Subject: ld.NewIRI("urn:a"), Predicate: ld.NewIRI("urn:p"), Object: ld.NewLiteral("x", ld.XSDString, "")}}
+	ds.Graphs["@default"] = []*ld.Quad{{Subject: ld.NewIRI("urn:a"), Predicate: ld.NewBlankNode("_:p"), Object: ld.NewLiteral("x", ld.XSDString, "")}}
+	n := d.cfg.Pick(300, 3000)
+	msgs := map[string]int{}
+	for i := 0; i < n; i++ {
+		_, o := mzrun.Entries(ds, d.hs[0])
+		d.rep.Evaluations++
+		if o.Class != "err" {
+			d.fail("inconsistent dataset not rejected in run "+fmt.Sprint(i+1)+": "+o.Class,
+				failInput{Kind: "dataset", Class: "c03-dataset-nondeterministic", Dataset: dumpDS(ds), Repeats: n})
+			return
+		}
+		msgs[o.Msg]++
+	}
+	var ks []string
+	for k, c := range msgs {
+		ks = append(ks, fmt.Sprintf("%q x %d", k, c))
+	}
+	sort.Strings(ks)
+	d.rep.notes = append(d.rep.notes, fmt.Sprintf("witness bad_ds (two different inconsistencies in two graphs) run %d times on the implementation: always an error; messages: %s — only the MESSAGE depends on Go's map order (observation, not a violation; error strings are not observables)", n, strings.Join(ks, "; ")))
+	d.datasetCase(ds, 0, failInput{Kind: "dataset", Note: "witness-bad_ds"}, 2)
+}
+
 // rawDataset: hand-built datasets with several graphs (shapes json-gold emits and
 // shapes it never emits), aimed at the places where Go ranges over ds.Graphs.
 func (d *drv) rawDataset() (*ld.RDFDataset, string) {
@@ -1078,6 +1117,7 @@ func merge(rep *common.Report, tasks []*drv) []*rcase {
 		for _, c := range t.distinct {
 			rep.Distinct(c)
 		}
+		rep.Notes = append(rep.Notes, t.rep.notes...)
 		cases = append(cases, t.cases...)
 	}
 	return cases
@@ -1224,6 +1264,7 @@ func Run(cfg *common.Config) (*common.Report, error) {
 			t.datasetCase(ds, t.rng.Intn(len(t.hs)), failInput{Kind: "dataset", Note: kind}, 3)
 		})
 	}
+	add(func(t *drv) { t.witness() })
 	const workers = 8
 	var wg sync.WaitGroup
 	next := make(chan int)
